@@ -5,7 +5,7 @@ from . import dispatch as D, convert as CV
 from .c08 import C_bytes
 
 LEVEL = "translation_validation"
-TECHNIQUE = "translation validation of #[derive(ScpiEnum)]: for every derived enum compiled in the workspace and in the witness crate the expansion's MIR is tabulated by FDAI (from_mnemonic guard chain, mnemonic() table, TryFrom<Token> row) and checked to be mutually inverse and complete; the response text of every variant is obtained by constant-folding the blanket ResponseData impl on the variant's own mnemonic constant and folded back through from_mnemonic"
+TECHNIQUE = "translation validation of #[derive(ScpiEnum)]: for every derived enum compiled in the workspace and in the witness crate the expansion's MIR is tabulated by FDAI (from_mnemonic guard chain, mnemonic() table, TryFrom<Token> row) and checked to be mutually inverse and complete; the response text of every variant is obtained by constant-folding the blanket ResponseData impl on the variant's own mnemonic constant and folded back through from_mnemonic; typed echo tables (sa/rules/echotable.py, witness/echo): `Node::run` folded end to end on messages to a witness command that pulls one parameter of the type (`next_data::<T>()` / `next_optional_data`) and writes it back - lexer, dispatcher, Parameters, the conversion, the ResponseData writer and the formatter analysed in place, lexical-core's parsers / integer writer by contract - the answer compared with a reference written from the property's statement: a derive(ScpiEnum) enum with suffixed siblings as parameter and answer: short / long form in any case, default-1 suffix rule, foreign and leading-zero suffixes, partial long forms, one letter more or less"
 LEVEL_TEXT = "Each derive instance (programs = derived enums) is validated against the attribute table recovered from its own expansion: from_mnemonic is a first-match chain of scpi's mnemonic_match guards, one per attributed variant, returning that variant; mnemonic() is its inverse; the Token conversion accepts character data only. Because the mnemonics are program constants, the response formatter and the matcher are partially evaluated on them: the emitted text of every variant is computed and shown to select the same variant again."
 LEVEL_NOTE = "Not decided: enums with colliding mnemonics (excluded by the property); enum shapes not present among the witnesses. Trusted: rustc MIR, FDAI models of slice iterators/split/all/rposition used for constant folding."
 
